@@ -94,6 +94,10 @@ func rulePosCol(c *Ctx) []Obligation {
 					case *ssa.Call:
 						switch {
 						case f == fCol && (calleeIs(x, "unicode/utf8", "RuneCountInString") || calleeIs(x, "unicode/utf8", "RuneCount")):
+							// the characters counted must be those after the LAST line break of the text moved over
+							if w := afterLastBreak(x.Call.Args[0]); w != "" {
+								why = w
+							}
 							continue
 						case f == fLine && (calleeIs(x, "strings", "Count") || calleeIs(x, "bytes", "Count")):
 							if s, isS := constString(x.Call.Args[1]); isS && s == "\n" {
@@ -119,6 +123,50 @@ func rulePosCol(c *Ctx) []Obligation {
 		}
 	}
 	return obs
+}
+
+// afterLastBreak: v is text[LastIndex(text, "\n")+1:] (or the last element of Split(text, "\n")). Returns "" if so,
+// else what is wrong.
+func afterLastBreak(v ssa.Value) string {
+	switch x := v.(type) {
+	case *ssa.Slice:
+		if x.High != nil {
+			return "counts a part of the text that does not run to its end"
+		}
+		lowOK := false
+		if bo, isB := x.Low.(*ssa.BinOp); isB && bo.Op == token.ADD {
+			for _, pair := range [][2]ssa.Value{{bo.X, bo.Y}, {bo.Y, bo.X}} {
+				call, isC := pair[0].(*ssa.Call)
+				k, isK := constInt(pair[1])
+				if !isC || !isK || k != 1 {
+					continue
+				}
+				switch calleeName(call) {
+				case "LastIndex", "LastIndexByte", "LastIndexAny":
+					if sameExpr(call.Call.Args[0], x.X) || AccessPath(call.Call.Args[0]) == AccessPath(x.X) {
+						lowOK = true
+					}
+				}
+			}
+		}
+		if lowOK {
+			return ""
+		}
+		return "counts the characters from a point that is not the last line break of the text moved over (after several line breaks the column is that of the wrong line)"
+	case *ssa.UnOp, *ssa.Index:
+		// element of a Split result: must be the last one — not modelled
+		return "counts text whose relation to the last line break could not be established"
+	case *ssa.Phi:
+		for _, e := range x.Edges {
+			if w := afterLastBreak(e); w != "" {
+				return w
+			}
+		}
+		return ""
+	case *ssa.Parameter:
+		return "counts the whole of a text that may contain line breaks"
+	}
+	return "counts text whose relation to the last line break could not be established"
 }
 
 func describeLeaf(v ssa.Value) string {
